@@ -1840,12 +1840,42 @@ static int64_t eval(Node *node) {
 // is a pointer to a global variable and n is a postiive/negative
 // number. The latter form is accepted only as an initialization
 // expression for a global variable.
+// Reduce a value computed in 64 bits to the range of the expression's
+// type, so that it is exactly what the same expression yields at run time.
+static int64_t narrow_to_type(Type *ty, int64_t val) {
+  if (ty->kind == TY_BOOL)
+    return val != 0;
+  if (!is_integer(ty))
+    return val;
+
+  switch (ty->size) {
+  case 1:
+    if (ty->is_unsigned)
+      return (uint8_t)val;
+    return (int8_t)val;
+  case 2:
+    if (ty->is_unsigned)
+      return (uint16_t)val;
+    return (int16_t)val;
+  case 4:
+    if (ty->is_unsigned)
+      return (uint32_t)val;
+    return (int32_t)val;
+  }
+  return val;
+}
+
+static int64_t eval2_raw(Node *node, char ***label);
+
 static int64_t eval2(Node *node, char ***label) {
   add_type(node);
 
   if (is_flonum(node->ty))
     return eval_double(node);
+  return narrow_to_type(node->ty, eval2_raw(node, label));
+}
 
+static int64_t eval2_raw(Node *node, char ***label) {
   switch (node->kind) {
   case ND_ADD:
     return eval2(node->lhs, label) + eval(node->rhs);
@@ -1899,17 +1929,9 @@ static int64_t eval2(Node *node, char ***label) {
     return eval(node->lhs) && eval(node->rhs);
   case ND_LOGOR:
     return eval(node->lhs) || eval(node->rhs);
-  case ND_CAST: {
-    int64_t val = eval2(node->lhs, label);
-    if (is_integer(node->ty)) {
-      switch (node->ty->size) {
-      case 1: return node->ty->is_unsigned ? (uint8_t)val : (int8_t)val;
-      case 2: return node->ty->is_unsigned ? (uint16_t)val : (int16_t)val;
-      case 4: return node->ty->is_unsigned ? (uint32_t)val : (int32_t)val;
-      }
-    }
-    return val;
-  }
+  case ND_CAST:
+    // eval2 narrows the value to the type of the cast.
+    return eval2(node->lhs, label);
   case ND_ADDR:
     return eval_rval(node->lhs, label);
   case ND_LABEL_VAL:
